@@ -378,7 +378,7 @@ pub fn backends(ctx: &Ctx) -> Vec<Backend> {
 }
 
 pub fn run_c15(ctx: &mut Ctx) {
-    let n: u64 = ctx.tier.pick(12_000, 300_000);
+    let n: u64 = ctx.tier.pick(60_000, 1_000_000);
     let bs = backends(ctx);
     let lim = GenLimits::default();
     for i in 0..n {
@@ -661,7 +661,9 @@ fn size_bucket(b: usize) -> &'static str {
     }
 }
 
-pub const REPLY_FAULTS: [&str; 10] = [
+pub const REPLY_FAULTS: [&str; 12] = [
+    "garbage-after-reply",
+    "double-status-unsat-first",
     "exit-silent",
     "status-only",
     "truncated-model",
@@ -756,8 +758,8 @@ fn gen_exchange(ctx: &Ctx, rng: &mut Rng, idx: u64) -> ExchangeCase {
 }
 
 pub fn run_c16(ctx: &mut Ctx) {
-    let n_streams: u64 = ctx.tier.pick(2_500, 60_000);
-    let n_exch: u64 = ctx.tier.pick(1_600, 30_000);
+    let n_streams: u64 = ctx.tier.pick(6_000, 100_000);
+    let n_exch: u64 = ctx.tier.pick(3_200, 50_000);
     let lim = GenLimits::default();
     let timeout = Duration::from_secs(12);
     for i in 0..n_exch {
@@ -1215,7 +1217,7 @@ fn c17_cli(ctx: &mut Ctx, case: &StaticCase, rng: &mut Rng, focus: Option<&Value
 }
 
 pub fn run_c17(ctx: &mut Ctx) {
-    let n: u64 = ctx.tier.pick(5_000, 120_000);
+    let n: u64 = ctx.tier.pick(14_000, 250_000);
     let lim = GenLimits::default();
     for i in 0..n {
         if !ctx.mine(i) {
